@@ -237,5 +237,8 @@ func (c *Client[C]) Ping(ctx context.Context) error {
 		return nil
 	case <-ctx.Done():
 		return ctx.Err()
+	case <-c.cc.Context().Done():
+		// the connection was closed: no pong can arrive any more
+		return fmt.Errorf("connection was closed: %w", c.cc.Context().Err())
 	}
 }
